@@ -21,6 +21,7 @@ func ruleC04(prog *Program, rep *Report) {
 	ruleClamp(prog, rep)
 	ruleSeparator(prog, rep)
 	ruleTail(prog, rep, 12, "oj")
+	rulePadBound(prog, rep)
 	// a Writer shared through the pool or left half-configured by the previous call does not emit the text of the in-memory call
 	rulePoolPut(prog, rep, "oj.Writer", "pretty.Writer")
 	ruleReturnAlias(prog, rep, "C04", "oj", "pretty")
@@ -347,4 +348,184 @@ func clampIn(prog *Program, pk *packages.Package, rel string, rep *Report) int {
 		}
 	}
 	return n
+}
+
+// rulePadBound: W-padbound. Slices of a package-level string whose upper bound is an
+// expression (the alignment pads of package pretty: spaces[1:cw-m.size+1]) cannot
+// be clamped locally; what keeps them in range is that a pad never exceeds the
+// writer's Width and that Width is clamped to len(S)-1 before anything is laid
+// out. The rule checks the second half, which is visible in the code: a clamp
+// `if len(S)-1 < w.F { w.F = len(S)-1 }` exists in a function G, and no exported
+// function of the package reaches a pad site without passing through G.
+func rulePadBound(prog *Program, rep *Report) {
+	rep.Rules = append(rep.Rules, "W-padbound: in package pretty every slice S[lo:expr] of a package-level string with a computed (non-variable) upper bound lies in a function that exported functions reach only through the function holding the clamp `if len(S)-k < w.Width { w.Width = len(S)-k }` (k >= 0) (intra-package call graph over resolved callees): the alignment pads are bounded by Width, so Width must be bounded by the string before any layout")
+	pk := prog.Pkg("pretty")
+	if pk == nil {
+		rep.Errorf("W-padbound: package pretty not loaded")
+		return
+	}
+	info := pk.TypesInfo
+	decls := map[types.Object]*ast.FuncDecl{}
+	for _, f := range pk.Syntax {
+		if strings.HasSuffix(prog.Fset.Position(f.Pos()).Filename, "_test.go") {
+			continue
+		}
+		for _, d := range f.Decls {
+			if fd, ok := d.(*ast.FuncDecl); ok && fd.Body != nil {
+				decls[info.Defs[fd.Name]] = fd
+			}
+		}
+	}
+	// pad sites and clamps
+	type site struct {
+		fn  types.Object
+		pos token.Pos
+		str types.Object
+		txt string
+	}
+	var sites []site
+	clampFns := map[types.Object]map[types.Object]bool{} // string object -> functions holding a clamp for it
+	for fo, fd := range decls {
+		ast.Inspect(fd.Body, func(n ast.Node) bool {
+			switch x := n.(type) {
+			case *ast.SliceExpr:
+				if x.High == nil {
+					return true
+				}
+				so := useObj(info, x.X)
+				if so == nil || so.Parent() != pk.Types.Scope() {
+					return true
+				}
+				if b, ok := so.Type().Underlying().(*types.Basic); !ok || b.Info()&types.IsString == 0 {
+					return true
+				}
+				if useObj(info, x.High) != nil {
+					return true // single variable: W-clamp
+				}
+				if tv, ok := info.Types[x.High]; ok && tv.Value != nil {
+					return true // constant
+				}
+				sites = append(sites, site{fn: fo, pos: x.Pos(), str: so, txt: types.ExprString(x)})
+			case *ast.IfStmt:
+				be, ok := ast.Unparen(x.Cond).(*ast.BinaryExpr)
+				if !ok || x.Else != nil || len(x.Body.List) != 1 {
+					return true
+				}
+				lhs, rhs, op := be.X, be.Y, be.Op
+				if op == token.GTR {
+					lhs, rhs, op = rhs, lhs, token.LSS
+				}
+				if op != token.LSS {
+					return true
+				}
+				// lhs must be len(S) or len(S)-k, k a non-negative constant (the pads stay a few bytes below Width,
+				// so a clamp to len(S) is as good as the len(S)-1 the code uses)
+				lenExpr := ast.Unparen(lhs)
+				if lm, ok := lenExpr.(*ast.BinaryExpr); ok {
+					if lm.Op != token.SUB {
+						return true
+					}
+					if tv, ok := info.Types[lm.Y]; !ok || tv.Value == nil || strings.HasPrefix(tv.Value.ExactString(), "-") {
+						return true
+					}
+					lenExpr = ast.Unparen(lm.X)
+				}
+				call, ok := lenExpr.(*ast.CallExpr)
+				if !ok || !isLenCall(call) {
+					return true
+				}
+				so := useObj(info, call.Args[0])
+				if so == nil || so.Parent() != pk.Types.Scope() {
+					return true
+				}
+				as, ok := x.Body.List[0].(*ast.AssignStmt)
+				if !ok || len(as.Lhs) != 1 || len(as.Rhs) != 1 {
+					return true
+				}
+				if types.ExprString(as.Lhs[0]) != types.ExprString(rhs) || types.ExprString(as.Rhs[0]) != types.ExprString(lhs) {
+					return true
+				}
+				if sel, ok := ast.Unparen(rhs).(*ast.SelectorExpr); !ok || sel.Sel.Name != "Width" {
+					return true
+				}
+				if clampFns[so] == nil {
+					clampFns[so] = map[types.Object]bool{}
+				}
+				clampFns[so][fo] = true
+			}
+			return true
+		})
+	}
+	// intra-package call graph
+	callees := map[types.Object]map[types.Object]bool{}
+	for fo, fd := range decls {
+		callees[fo] = map[types.Object]bool{}
+		ast.Inspect(fd.Body, func(n ast.Node) bool {
+			var o types.Object
+			switch x := n.(type) {
+			case *ast.Ident:
+				o = info.Uses[x]
+			case *ast.SelectorExpr:
+				o = info.Uses[x.Sel]
+			}
+			if o != nil && decls[o] != nil {
+				callees[fo][o] = true // called or taken as a value: both let control reach it
+			}
+			return true
+		})
+	}
+	sort.Slice(sites, func(i, j int) bool { return sites[i].pos < sites[j].pos })
+	for i, s := range sites {
+		key := fmt.Sprintf("pretty.%s:pad#%d", funcKey(decls[s.fn]), i+1)
+		clamps := clampFns[s.str]
+		if len(clamps) == 0 {
+			rep.Violate(Finding{Rule: "W-padbound", Key: fmt.Sprintf("pretty.%s:no-width-clamp:%s", funcKey(decls[s.fn]), s.str.Name()), Pos: prog.Pos(s.pos), Msg: fmt.Sprintf("%s is sliced with a computed bound and no function clamps the writer's Width to the length of %s: a Width beyond the string makes an alignment pad slice out of range", s.txt, s.str.Name())})
+			continue
+		}
+		// exported functions that reach the site without passing through a clamp function
+		var bad []string
+		for fo, fd := range decls {
+			if !fd.Name.IsExported() {
+				continue
+			}
+			seen := map[types.Object]bool{}
+			var reach func(o types.Object) bool
+			reach = func(o types.Object) bool {
+				if clamps[o] {
+					return false
+				}
+				if o == s.fn {
+					return true
+				}
+				if seen[o] {
+					return false
+				}
+				seen[o] = true
+				for c := range callees[o] {
+					if reach(c) {
+						return true
+					}
+				}
+				return false
+			}
+			if reach(fo) {
+				bad = append(bad, funcKey(fd))
+			}
+		}
+		sort.Strings(bad)
+		if len(bad) > 0 {
+			rep.Violate(Finding{Rule: "W-padbound", Key: fmt.Sprintf("pretty.%s:reached-without-clamp:%s", funcKey(decls[s.fn]), strings.Join(bad, ",")), Pos: prog.Pos(s.pos), Msg: fmt.Sprintf("%s is reachable from %s without passing through the function that clamps Width to the length of %s", s.txt, strings.Join(bad, ", "), s.str.Name())})
+			continue
+		}
+		var cn []string
+		for o := range clamps {
+			cn = append(cn, funcKey(decls[o]))
+		}
+		sort.Strings(cn)
+		rep.Discharge("W-padbound", key, prog.Pos(s.pos), "every exported entry reaches it only through "+strings.Join(cn, ",")+", which clamps Width to the length of "+s.str.Name())
+	}
+	rep.Eval(len(sites))
+	if len(sites) < 5 {
+		rep.Errorf("W-padbound found %d computed pad slices (floor 5): anchors did not resolve", len(sites))
+	}
 }
